@@ -747,4 +747,39 @@ def runsOf (c : StartCfg) (s : StartSt) (j : Nat) : Nat :=
 def foreignOf (c : StartCfg) (s : StartSt) (j : Nat) : Nat :=
   ((List.range c.napps).filter fun i => i != j && (s.applied i).contains (.comps j)).length
 
+/-! ## 5. fifth round: what the user's logger holds when Close returns; load-or-store of a definition
+
+    (a) `closel`: a failing closer's goroutine reports the error (`if err := m.Close(); err != nil { … s.logger().Errorf(…) }`,
+        app/app.go:163-166) between the return of its call (`called`) and the deferred `wg.Done()` (`post` → `finished`); in
+        the fork/join system that block is the step `called → post` (App.Close has no shared variable: `crit = false`), so
+        the report of worker i is complete exactly when its pc is `post` or `finished`.
+    (b) `gmor` / `gscan`: DefinitionRegistry.GetMetaOrRegister (container/support/component_definition_registry.go:43-50)
+        is ONE `metaMaps.LoadOrStoreFn(name, build)` on a sync2.Map; g callers of one name are g calls `loadOrStoreFn k v_t`
+        of the map model of section 3 (v_t = the definition caller t would build). -/
+
+/-- completed error reports of failing closers among the first n workers -/
+def reported (n : Nat) (fails : Nat → Bool) (s : St) : Nat :=
+  ((List.range n).filter fun i => fails i && (decide (s.wpc i = .post) || decide (s.wpc i = .finished))).length
+
+/-- failing closers among the first n -/
+def failing (n : Nat) (fails : Nat → Bool) : Nat := ((List.range n).filter fails).length
+
+/-- g callers, caller t builds definition 10+t; the name is key 1 -/
+def gmorQueues (g : Nat) : Nat → List Op := fun t => if t < g then [Op.loadOrStoreFn 1 (10 + t)] else []
+
+/-- the schedule a barrier produces: everybody invokes, everybody passes the Load (a miss), everybody builds its own
+    definition, then the LoadOrStores one after the other -/
+def gmorSched (g : Nat) : List Nat := List.range g ++ List.range g ++ List.range g ++ List.range g
+
+/-- the values handed out by completed calls -/
+def gotVals (h : List (Nat × Op × Res)) : List Nat :=
+  h.filterMap fun e => match e.2.2 with | .got (some v) _ => some v | _ => none
+
+/-- (distinct definitions handed out, entries of the name in the registry, every caller holds the one the registry keeps) -/
+def gmorObs (g : Nat) : Nat × Nat × Bool :=
+  let s := run factProgs (Sys.start emptyMap (gmorQueues g)) (gmorSched g)
+  let vals := gotVals s.hist
+  (vals.eraseDups.length, (if (s.map 1).isSome then 1 else 0),
+   vals.length == g && vals.all fun v => s.map 1 == some v)
+
 end Ioc.Conc
